@@ -139,8 +139,9 @@ CLAIMED = {
         "text": "Coq theorems (props/C08.v) over rom_power_from_stats regenerated from mean.py: power = rejection probability of the "
                 "configured test under the alternative with groups n/(1+r), n r/(1+r) and standardised effect delta/se "
                 "(noncentral t with the test's df / shifted normal); closed form for Z; range [0,1]; strictly monotone in the "
-                "effect for one-sided alternatives; a covariate never raises the variance entering the computation (Cauchy-Schwarz "
-                "form). Monotonicity in n for t and two-sided monotonicity in |effect| are validated by sweeps (partial)",
+                "effect for one-sided alternatives; Z power strictly monotone in n (se = sqrt(v(1+r)^2/(n r))); a covariate never "
+                "raises the variance entering the computation (Cauchy-Schwarz form). Monotonicity in n for t and two-sided "
+                "monotonicity are validated by sweeps (partial)",
         "note": "trusted: Coq kernel, stdlib real axioms, translator, laws L1-L9 as hypotheses (satisfiable), scipy reference in the oracle",
         "technique": "Coq proof over translator-generated model with distribution-law hypotheses; exact differential; scipy reference oracle",
         "design": "DESIGN.md section 5, C08",
